@@ -137,3 +137,92 @@ Fixpoint tbl_lookup (t : list (Z * bool)) (r : Z) : bool :=
 Definition isprint_tbl (t : list (Z * bool)) (r : Z) : bool :=
   if r <=? 255 then (in_rng 32 126 r) || (in_rng 161 255 r && negb (r =? 173))
   else tbl_lookup t r.
+
+(* ------------------------------------------------------------------ jsonQuote (writer/utils/unmarshal/unmarshal.go)
+   the quoter of encodeLabels since the fix of the label document: `for _, r := range s` walks the
+   runes (an ill-formed byte arrives as U+FFFD, width 1);  dquote and backslash get a backslash;
+   \b \f \n \r \t; any other rune below U+10000 that IsPrint rejects (the remaining control characters,
+   0x7f, non-printable BMP runes) is written \uXXXX; everything else is copied as UTF-8. It writes what
+   strconv.Quote writes wherever that is JSON. *)
+Definition fffd : string := String (chr 239) (String (chr 191) (str1 (chr 189))).     (* U+FFFD *)
+
+Definition jq_ascii (c : ascii) : string :=
+  let b := byte c in
+  if (b =? 34) || (b =? 92) then String bs (str1 c)
+  else if in_rng 32 126 b then str1 c
+  else if b =? 8 then String bs "b"
+  else if b =? 12 then String bs "f"
+  else if b =? 10 then String bs "n"
+  else if b =? 13 then String bs "r"
+  else if b =? 9 then String bs "t"
+  else String bs (String "u" (hexn 4 b)).
+
+Definition jq_rune (isprint : Z -> bool) (r : Z) (raw : string) : string :=
+  if isprint r || (65536 <=? r) then raw else String bs (String "u" (hexn 4 r)).
+
+Fixpoint jquote_body (isprint : Z -> bool) (skip : nat) (s : string) : string :=
+  match s with
+  | EmptyString => EmptyString
+  | String c rest =>
+    match skip with
+    | S k => jquote_body isprint k rest
+    | O =>
+      let b := byte c in
+      if b <? 128 then append (jq_ascii c) (jquote_body isprint 0 rest)
+      else match decode_rune s with
+           | Some (r, w) => append (jq_rune isprint r (stake w s)) (jquote_body isprint (Nat.pred w) rest)
+           | None => append fffd (jquote_body isprint 0 rest)
+           end
+    end
+  end.
+
+Definition json_quote (isprint : Z -> bool) (s : string) : string :=
+  String dq (append (jquote_body isprint 0 s) (str1 dq)).
+
+(* what `for range` / []rune(s) makes of a byte string: every ill-formed byte becomes U+FFFD *)
+Fixpoint utf8_fix (skip : nat) (s : string) : string :=
+  match s with
+  | EmptyString => EmptyString
+  | String c rest =>
+    match skip with
+    | S k => String c (utf8_fix k rest)
+    | O =>
+      if byte c <? 128 then String c (utf8_fix 0 rest)
+      else match decode_rune s with
+           | Some (_, w) => String c (utf8_fix (Nat.pred w) rest)
+           | None => append fffd (utf8_fix 0 rest)
+           end
+    end
+  end.
+
+(* utf8.ValidString *)
+Fixpoint utf8_valid (skip : nat) (s : string) : bool :=
+  match s with
+  | EmptyString => true
+  | String c rest =>
+    match skip with
+    | S k => utf8_valid k rest
+    | O =>
+      if byte c <? 128 then utf8_valid 0 rest
+      else match decode_rune s with
+           | Some (_, w) => utf8_valid (Nat.pred w) rest
+           | None => false
+           end
+    end
+  end.
+
+(* strings.ToValidUTF8(s, "�"): every RUN of ill-formed bytes is replaced by one U+FFFD *)
+Fixpoint to_valid (inrun : bool) (skip : nat) (s : string) : string :=
+  match s with
+  | EmptyString => EmptyString
+  | String c rest =>
+    match skip with
+    | S k => String c (to_valid false k rest)
+    | O =>
+      if byte c <? 128 then String c (to_valid false 0 rest)
+      else match decode_rune s with
+           | Some (_, w) => String c (to_valid false (Nat.pred w) rest)
+           | None => if inrun then to_valid true 0 rest else append fffd (to_valid true 0 rest)
+           end
+    end
+  end.
